@@ -101,8 +101,11 @@ type FaultPlan struct {
 	BurstRate     float64 `json:"burst_rate"` // per step: keep choosing the same actor
 	BurstMax      int     `json:"burst_max"`
 	ClockJumpRate float64 `json:"clock_jump_rate"` // per step: let fake time pass while actors are parked
-	SlowFrac      float64 `json:"slow_frac"`       // PolWeighted: fraction of actors that are slow
-	PCTDepth      int     `json:"pct_depth"`
+	// ClockJumpBudgetMs: if > 0, the injected jumps of one run add up to at most this much
+	// simulated time (for properties that say nothing about how long things may take)
+	ClockJumpBudgetMs int     `json:"clock_jump_budget_ms,omitempty"`
+	SlowFrac          float64 `json:"slow_frac"` // PolWeighted: fraction of actors that are slow
+	PCTDepth          int     `json:"pct_depth"`
 }
 
 type Options struct {
@@ -200,12 +203,12 @@ func New(opt Options) *Sim {
 		opt.MaxIdleSimTime = 2 * time.Hour
 	}
 	s := &Sim{
-		opt:     opt,
-		byGID:   make(map[uint64]*actor),
-		siteCtr: make(map[string]int),
+		opt:      opt,
+		byGID:    make(map[uint64]*actor),
+		siteCtr:  make(map[string]int),
 		spawnCtr: make(map[string]int),
-		rng:     NewRNG(opt.Seed, "sched"),
-		fired:   make(map[string]int),
+		rng:      NewRNG(opt.Seed, "sched"),
+		fired:    make(map[string]int),
 	}
 	return s
 }
@@ -741,7 +744,8 @@ func (s *Sim) Run(caller func()) (res Result) {
 	maxEnabled, contended := 0, 0
 	pollIdle, pollQuantum := time.Duration(0), time.Millisecond
 	var lastPoller *actor
-	version := uint64(1) // bumped whenever the state of the system may have changed
+	version := uint64(1)       // bumped whenever the state of the system may have changed
+	jumped := time.Duration(0) // simulated time injected by clock-jump faults so far
 	defer func() { res.MaxEnabled = maxEnabled; res.Contended = contended }()
 	for {
 		s.opt.WaitQuiescent()
@@ -822,10 +826,13 @@ func (s *Sim) Run(caller func()) (res Result) {
 			if s.rng.Chance(0.2) {
 				d = time.Duration(5+s.rng.Intn(115)) * time.Second // now and then a long stall of everybody
 			}
-			s.pushTape(clockJumpMark | uint32(d/time.Millisecond))
-			s.doClockJump(d)
-			version++
-			continue
+			if b := time.Duration(s.opt.Faults.ClockJumpBudgetMs) * time.Millisecond; b == 0 || jumped+d <= b {
+				jumped += d
+				s.pushTape(clockJumpMark | uint32(d/time.Millisecond))
+				s.doClockJump(d)
+				version++
+				continue
+			}
 		}
 		if s.opt.Replay && s.tapePos() < len(s.opt.Tape) && s.opt.Tape[s.tapePos()]&clockJumpMark != 0 {
 			d := time.Duration(s.opt.Tape[s.tapePos()]&^clockJumpMark) * time.Millisecond
@@ -1007,3 +1014,45 @@ func Now(site string) time.Time {
 
 func Since(site string, t time.Time) time.Duration { return Now(site).Sub(t) }
 
+// ---- the machine as a seam ----
+//
+// Code that sizes itself from the machine (runtime.NumCPU, runtime.GOMAXPROCS(0)) or
+// watches its memory (runtime.ReadMemStats) behaves differently on another machine, not
+// under another schedule. While a simulation runs these calls answer from the run's seed:
+// a machine of 1, 2, 3, 4, 6, 8, 16 or 64 processors, and in one run out of five a heap that
+// looks enormous.
+
+func machineRNG(s *Sim, what string) RNG {
+	return RNG{s: mix64(s.opt.Seed) ^ HashString("machine:"+what)}
+}
+
+func NumCPU(site string) int {
+	s := cur.Load()
+	if s == nil {
+		return runtime.NumCPU()
+	}
+	r := machineRNG(s, "cpus")
+	return []int{1, 2, 3, 4, 6, 8, 16, 64}[r.Intn(8)]
+}
+
+// GOMAXPROCS: only the query (n < 1) is answered from the seed.
+func GOMAXPROCS(site string, n int) int {
+	s := cur.Load()
+	if s == nil || n >= 1 {
+		return runtime.GOMAXPROCS(n)
+	}
+	return NumCPU(site)
+}
+
+func ReadMemStats(site string, m *runtime.MemStats) {
+	runtime.ReadMemStats(m)
+	s := cur.Load()
+	if s == nil {
+		return
+	}
+	r := machineRNG(s, "memory")
+	if r.Intn(5) == 0 { // memory pressure
+		const huge = 1 << 50
+		m.Alloc, m.HeapAlloc, m.HeapInuse, m.HeapSys, m.Sys, m.TotalAlloc = huge, huge, huge, huge, huge, huge
+	}
+}
